@@ -11,7 +11,7 @@ Print Assumptions C03_unsupported_is_null.
 (* ... and that table is not only a transcription: it IS the operand-type ladder of runtime.py evaluate_expression.  Gen/OpTable.v
    is REGENERATED from the source on every run (per operator the guards of its branch: _is_number / isinstance str /
    isinstance datetime.date on the left and right value, in source order; _is_number pinned to exclude bool; the handler pinned to
-   (ArithmeticError, ValueError)); for every operator of the generated table and every pair of the nine value types, [supported]
+   (ArithmeticError, ValueError, RecursionError)); for every operator of the generated table and every pair of the nine value types, [supported]
    holds exactly when a guard of the source admits the pair *)
 Theorem C03_supported_table_is_the_source_ladder : forall op g a b,
   In (op, g) gen_operator_guards -> supported op a b = guards_admit g a b.
